@@ -5,9 +5,14 @@ go 1.26
 require (
 	github.com/anishathalye/porcupine v1.3.0
 	github.com/deckhouse/deckhouse/pkg/log v0.0.0-20241205040953-7b376bae249c
+	github.com/evanphx/json-patch v5.9.0+incompatible
 	github.com/flant/kube-client v1.3.0
 	github.com/flant/shell-operator v0.0.0
+	github.com/itchyny/gojq v0.12.17
 	github.com/prometheus/client_model v0.6.1
+	k8s.io/apimachinery v0.30.11
+	k8s.io/client-go v0.30.11
+	sigs.k8s.io/yaml v1.4.0
 )
 
 require (
@@ -21,7 +26,6 @@ require (
 	github.com/deckhouse/module-sdk v0.2.0 // indirect
 	github.com/emicklei/go-restful/v3 v3.11.0 // indirect
 	github.com/ettle/strcase v0.2.0 // indirect
-	github.com/evanphx/json-patch v5.9.0+incompatible // indirect
 	github.com/evanphx/json-patch/v5 v5.9.0 // indirect
 	github.com/go-chi/chi/v5 v5.2.1 // indirect
 	github.com/go-errors/errors v1.4.2 // indirect
@@ -52,7 +56,6 @@ require (
 	github.com/hashicorp/errwrap v1.1.0 // indirect
 	github.com/hashicorp/go-multierror v1.1.1 // indirect
 	github.com/imdario/mergo v0.3.16 // indirect
-	github.com/itchyny/gojq v0.12.17 // indirect
 	github.com/itchyny/timefmt-go v0.1.6 // indirect
 	github.com/jonboulle/clockwork v0.4.0 // indirect
 	github.com/josharian/intern v1.0.0 // indirect
@@ -93,9 +96,7 @@ require (
 	gopkg.in/yaml.v3 v3.0.1 // indirect
 	k8s.io/api v0.30.11 // indirect
 	k8s.io/apiextensions-apiserver v0.30.11 // indirect
-	k8s.io/apimachinery v0.30.11 // indirect
 	k8s.io/cli-runtime v0.30.11 // indirect
-	k8s.io/client-go v0.30.11 // indirect
 	k8s.io/klog/v2 v2.130.1 // indirect
 	k8s.io/kube-openapi v0.0.0-20240228011516-70dd3763d340 // indirect
 	k8s.io/utils v0.0.0-20240711033017-18e509b52bc8 // indirect
@@ -104,7 +105,6 @@ require (
 	sigs.k8s.io/kustomize/api v0.13.5-0.20230601165947-6ce0bf390ce3 // indirect
 	sigs.k8s.io/kustomize/kyaml v0.14.3-0.20230601165947-6ce0bf390ce3 // indirect
 	sigs.k8s.io/structured-merge-diff/v4 v4.4.1 // indirect
-	sigs.k8s.io/yaml v1.4.0 // indirect
 )
 
 replace github.com/flant/shell-operator => /repo
